@@ -75,10 +75,20 @@ static void unclaimed(void)
     else { X.ifrecv_min = 1; X.ifrecv_max = 1; }
 }
 
+/* --opt cbmode=1: the application has a fail-safe policy - when CONmtModeChange announces OPERATIONAL it calls CONmtSetMode(CO_STOP) from inside the callback.
+ * Which of the two requests wins is the implementation's choice; the reference follows the mode the node REPORTS afterwards, and everything else (per-state
+ * gating of every service, heartbeat content) has to agree with that reported mode from then on. */
+static int CBMODE, cb_nested, cb_fired;
+static void c09_cb_hook(uint8_t kind, uint32_t a, uint32_t b, uint32_t c)
+{
+    (void)b; (void)c;
+    if (kind == CB_MODE_CHANGE && a == (uint32_t)CO_OPERATIONAL && CBMODE && !cb_nested) { cb_nested = 1; cb_fired = 1; CONmtSetMode(&Node.Nmt, CO_STOP); cb_nested = 0; }
+}
 static int step(int e)
 {
     uint8_t d[8] = { 0 };
     memset(&X, 0, sizeof X);
+    CBMODE = mc_opt("cbmode", 0); cb_fired = 0; w_cb_hook = CBMODE ? c09_cb_hook : 0;
     if (M.stopped) {                       /* after CONodeStop nothing is specified: safety only */
         if (e >= E_SETMODE0 && e <= E_STOPNODE) return MC_SKIP;
     }
@@ -158,6 +168,12 @@ static int step(int e)
     nc_poll();                   
     (void)CONmtGetHbEvents(&Node.Nmt, 9);          /* the application reads (and clears) the consumer event counter */
     if (M.stopped) return MC_OK;
+    if (cb_fired) {        /* follow the reported mode; the callback sequence of this step is the implementation's business */
+        CO_MODE r = CONmtGetMode(&Node.Nmt);
+        M.mode = (uint8_t)(r == CO_INIT ? M_INIT : r == CO_PREOP ? M_PREOP : r == CO_OPERATIONAL ? M_OP : r == CO_STOP ? M_STOP : M_INVALID);
+        if (M.mode == M_INVALID) mc_fail("nmt-wrong-mode", "node reports mode %d after a mode change requested from the mode-change callback", (int)r);
+        return MC_OK;
+    }
     /* ---- compare ---- */
     if (CONmtGetMode(&Node.Nmt) != CM[M.mode]) { mc_fail("nmt-wrong-mode", "node is in mode %d, reference FSM in %d", CONmtGetMode(&Node.Nmt), CM[M.mode]); return MC_OK; }
     {   /* mode change callbacks */
